@@ -118,6 +118,29 @@ def completed(ctx):
         R.require(found and not bad, "err-skips-marker", f.where(), "a failing final handle_candidates returns (after cleanup) without marking 'completed'",
                   fail_msg="'completed' is recorded although handling the last buffered candidates failed")
         R.require(b.dominates(d.bb, f.bb), "final-after-drain", f.where(), "the final candidates are handled after the drain")
+        # the final flush may be skipped only when the buffer that the drain loop fills - the one handed to the final
+        # handle_candidates - is empty (a counter maintained elsewhere says nothing about what arrived during the drain)
+        cid = next((cid_ for call, cid_, i in passed if call is f or call.bb == f.bb), None)
+        bufsrc = set()
+        for bb_, bl in enumerate(b.blocks):
+            for i_, st in enumerate(bl["s"]):
+                if st[0] == "A" and st[2][0] == "agg" and isinstance(st[2][1], dict) and st[2][1].get("closure") == cid:
+                    for nm, op in zip(st[2][1].get("fields", []), st[2][2]):
+                        if op_place(op) is not None and "MatchCandidates" in b.ty(op_place(op)[0]) + "" or (op_place(op) is not None and "IndexMap<klukai_types::api::TableName" in b.ty(op_place(op)[0])):
+                            bufsrc |= {o.key() if hasattr(o, "key") else (o.kind, o.bb) for o in flow.origins(b, op_place(op), at=(bb_, i_))}
+        empties = [e for e in b.calls if e.name() == "is_empty" and b.dominates(d.bb, e.bb) and b.dominates(e.bb, f.bb) and "IndexMap" in e.self_ty]
+        okskip = False
+        for e in empties:
+            esrc = {o.key() if hasattr(o, "key") else (o.kind, o.bb) for o in flow.origins(b, op_place(e.args[0]), at=(e.bb, "T"))} if op_place(e.args[0]) is not None else set()
+            te, fe = flow.true_false_targets(b, e)
+            if not te or not (esrc & bufsrc):
+                continue
+            # with the `is_empty() == true` edge removed, the marker is reachable from the end of the drain only through the flush
+            if not b.can_reach(e.bb, c.bb, no_nodes=(f.bb,), no_edges=te):
+                okskip = True
+        R.require(okskip, "skip-iff-buffer-empty", f.where(), "the final flush is skipped only when the drained buffer itself is empty",
+                  fail_msg="the final handle_candidates can be skipped on a condition other than `buf.is_empty()` of the buffer the drain loop fills: candidates that arrive while the "
+                           "matcher drains are dropped and the subscription is still marked 'completed' (restored later with rows that no longer equal its query)")
 
 
 def running(ctx):
